@@ -18,7 +18,7 @@ from sim.harness import draw_knobs
 
 ID = "C17"
 LEVEL = "exploration"
-RUNS = {"quick": 2600, "thorough": 60000}
+RUNS = {"quick": 2000, "thorough": 40000}
 WALL_CAP = {"quick": 120, "thorough": 3000}
 RULE = ("one case = 1-3 generated show definitions (1-8 steps; relative '+x', absolute, `duration:` and default "
         "timing, odd durations 0.007/0.013/0.333/1.001, inserted empty first step, empty middle/last steps, hold "
@@ -71,7 +71,7 @@ TECHNIQUE = "deterministic simulation, generated shows + control histories, exac
 
 SPEEDS = ["1", "0.1", "0.25", "0.5", "1.5", "2", "3.7", "7.3"]
 DUR_ALL = ["0.1", "0.25", "0.5", "0.333", "1", "1.5", "0.05", "0.013", "0.007", "1.001", "0.07", "2"]
-DUR_FAST = ["0.007", "0.013", "0.05", "0.007"]
+DUR_FAST = ["0.007", "0.013", "0.02", "0.007"]
 COLORS = ["ff0000", "00ff00", "0000ff", "ffffff", "804020", "000000", "123456"]
 FADES = [None, None, "100ms", "60ms", "200ms", 30]
 KINDS = ["played", "stopped", "looped", "paused", "resumed", "advanced", "stepped_back", "updated", "completed"]
@@ -176,6 +176,8 @@ def _gen_show(ch, si, fast):
         enc = style
         if style == "mixed":
             enc = ch.pick("enc", ["rel", "abs", "dur", "default"])
+        if fast and enc == "default":
+            enc = "dur"
         if enc == "default":
             durs[i] = d = "1"
         if last:
@@ -263,16 +265,30 @@ def plan(ch, tier):
     slot_via = [ch.weighted("via%d" % k, [("api", 1), ("player", 1)]) for k in range(NSLOTS)]
     nops = 3 + ch.choice("nops", 14)
     if fast:
-        nops = 2 + ch.choice("nops_fast", 6)
+        nops = 3 + ch.choice("nops_fast", 7)
     ops = []
     names = sorted(shows)
+    paused = []           # plan-time guess of the paused slots (bias only; the run decides)
     for j in range(nops):
+        slot = ch.weighted("slot", [(0, 4), (1, 2), (2, 1)])
         if j == 0:
             kind = "play"
+        elif paused and ch.flag("resume_bias", 0.5):
+            kind = ch.weighted("op_paused", [("resume", 5), ("advance", 1), ("step_back", 1), ("update", 1), ("stop", 1)])
+            slot = ch.pick("paused_slot", paused)
+        elif fast:
+            kind = ch.weighted("op_fast", [("wait", 5), ("play", 1.5), ("stop", 0.7), ("pause", 1), ("resume", 1),
+                                           ("advance", 1), ("step_back", 1), ("update", 1.5)])
         else:
             kind = ch.weighted("op", [("play", 3), ("stop", 2), ("pause", 2), ("resume", 2.5), ("advance", 2),
                                       ("step_back", 1.5), ("update", 1.5), ("wait", 1)])
-        op = {"op": kind, "slot": ch.weighted("slot", [(0, 4), (1, 2), (2, 1)])}
+        if fast and j > 0 and kind in ("play", "stop") and slot == 0:
+            slot = 1 + ch.choice("fast_slot", 2)      # the long-running show on slot 0 is left alone
+        if kind == "pause" and slot not in paused:
+            paused.append(slot)
+        elif kind in ("resume", "stop", "play") and slot in paused:
+            paused.remove(slot)
+        op = {"op": kind, "slot": slot}
         w = ch.weighted("when", [("rel", 5), ("deadline", 4)])
         if kind == "wait":
             op["when"] = ["rel", ch.pick("waitdt", [1.0, 2.5, 0.7] if not fast else [1.0, 2.0, 3.0])]
@@ -284,8 +300,10 @@ def plan(ch, tier):
             name = names[0] if (fast and j == 0) else ch.pick("pshow", names)
             n = meta[name]["n"]
             op["show"] = name
-            op["speed"] = ch.pick("speed", SPEEDS) if not (fast and j == 0) else ch.pick("fspeed", ["7.3", "3.7", "2", "1"])
+            op["speed"] = ch.pick("speed", SPEEDS) if not (fast and j == 0) else ch.pick("fspeed", ["7.3", "3.7", "7.3", "2"])
             op["loops"] = ch.weighted("loops", [(-1, 4), (0, 3), (1, 2), (3, 2)])
+            if fast and j == 0:
+                op["loops"] = -1
             ss = 1
             if ch.flag("start_step", 0.35):
                 ss = ch.randint("ss", -n, n)
@@ -294,14 +312,16 @@ def plan(ch, tier):
             op["start_step"] = ss
             op["sync_ms"] = ch.weighted("sync", [(0, 5), (100, 1), (250, 1), (500, 1), (1000, 0.5)])
             op["priority"] = ch.weighted("prio", [(0, 3), (1, 1), (3, 1), (7, 1), (10, 1)])
-            op["manual_advance"] = ch.flag("manual", 0.07)
-            op["start_running"] = not ch.flag("start_paused", 0.08)
+            op["manual_advance"] = ch.flag("manual", 0.07) and not (fast and j == 0)
+            op["start_running"] = not ch.flag("start_paused", 0.08) or (fast and j == 0)
             tok = {}
             if "light" in meta[name]["uses"]:
                 tok["light"] = ch.pick("tok_light", ["l3", "l4"])
             if "color" in meta[name]["uses"]:
                 tok["color"] = ch.pick("tok_color", COLORS)
             op["tokens"] = tok
+            if op["sync_ms"] and j > 0 and ch.flag("on_sync_multiple", 0.3):
+                op["when"] = ["sync", ch.choice("sync_k", 2)]      # request exactly on a multiple of sync_ms
         elif kind == "update":
             op["speed_idx"] = ch.choice("uspeed", len(SPEEDS))
         ops.append(op)
@@ -373,6 +393,8 @@ class Inst:
         self.started = False
         self.start_running = op["start_running"]
         self.req_after_end = None
+        self.resolve_pause = False
+        self.pause_unknown = False
         self.must_start_t = None
 
     def live(self):
@@ -809,7 +831,7 @@ def execute(ctx, plan):     # noqa: C901  (one scenario, kept in one place on pu
                     # a fade-out left by removing a key from a light with a default fade: must be short-lived
                     owner = [i for i in order if i.ctx_key and e.key == i.ctx_key + ".light_player"]
                     lim = default_fade.get(ln, 0.0)
-                    if e.dest_time and now > e.dest_time + 1e-6:
+                    if e.dest_time and now > e.dest_time + 1e-6 and not landing(now):
                         ctx.violation("residue_after_end", "fadeout:%s" % ln, "light %s keeps an expired fade-out entry "
                                       "%r at %.9f" % (ln, e, now))
                     if owner and lim == 0.0 and not owner[0].live() and now > owner[0].end_t + 0.25:
@@ -932,6 +954,7 @@ def execute(ctx, plan):     # noqa: C901  (one scenario, kept in one place on pu
                 close_open(inst)
                 inst.open = {"t": t, "need": Counter({"paused": 1}), "opt": Counter()}
                 inst.status = "paused"
+                inst.pause_unknown = False
                 inst.cands = [None]
             else:
                 optional(inst, t, ["paused"])
@@ -946,8 +969,11 @@ def execute(ctx, plan):     # noqa: C901  (one scenario, kept in one place on pu
                 inst.last_op = "resume_not_paused"
                 optional(inst, t, ["resumed"])
         elif kind in ("advance", "step_back"):
-            if st == "paused":
+            if st == "paused" or inst.pause_unknown:
+                # statement silent: the show may stay paused or go back to timed running; decided by whether
+                # the SUT armed a step timer (observable at the loop), see resolve_pause()
                 ctx.probe("advance_while_paused")
+                inst.resolve_pause = True
             if kind == "step_back":
                 inst.idx -= 2
                 if inst.idx < 0:
@@ -960,6 +986,26 @@ def execute(ctx, plan):     # noqa: C901  (one scenario, kept in one place on pu
             ctx.probe("update_speed")
             inst.speed = Fraction(SPEEDS[op["speed_idx"]])
             optional(inst, t, ["updated"])
+
+    def has_timer(rs):
+        for h in loop._scheduled:      # pylint: disable=protected-access
+            if not h._cancelled and getattr(h._callback, "__self__", None) is rs:
+                return True
+        return False
+
+    def resolve_pause(inst):
+        if not inst.resolve_pause:
+            return
+        inst.resolve_pause = False
+        if inst.status != "running" or inst.rs is None:
+            return
+        if inst.cands and None not in inst.cands:
+            if not has_timer(inst.rs):
+                inst.status = "paused"
+                inst.cands = [None]
+            inst.pause_unknown = False
+        else:
+            inst.pause_unknown = True     # no timer either way (manual_advance / hold step)
 
     def sut_rs(inst):
         if inst.rs is not None:
@@ -1026,7 +1072,8 @@ def execute(ctx, plan):     # noqa: C901  (one scenario, kept in one place on pu
         if cur is None:
             ctx.log("op", kind, "noinst", t=t)
             return
-        if cur.status == "ended" or (cur.status == "sync" and kind != "stop"):
+        if cur.status == "ended" or (cur.status == "sync" and kind != "stop") or \
+                (kind == "resume" and cur.pause_unknown):
             ctx.log("op", kind, "skipped", cur.status, t=t)
             return
         pre(kind, t)
@@ -1047,6 +1094,7 @@ def execute(ctx, plan):     # noqa: C901  (one scenario, kept in one place on pu
             rs.update(speed=float(SPEEDS[op["speed_idx"]]))
         # everything a request does happens synchronously
         close_open_keep_opt(cur)
+        resolve_pause(cur)
         post(t)
 
     def close_open_keep_opt(inst):
@@ -1072,7 +1120,7 @@ def execute(ctx, plan):     # noqa: C901  (one scenario, kept in one place on pu
             if cur is None:
                 ctx.log("op", kind, "noinst", t=t)
                 return
-            if cur.status == "sync" and kind != "stop":
+            if (cur.status == "sync" and kind != "stop") or (kind == "resume" and cur.pause_unknown):
                 ctx.log("op", kind, "skipped", cur.status, t=t)
                 return
             if kind == "update" and cur.manual:
@@ -1142,6 +1190,7 @@ def execute(ctx, plan):     # noqa: C901  (one scenario, kept in one place on pu
                         close_open(cur)
                 else:
                     close_open_keep_opt(cur)
+                    resolve_pause(cur)
             post(t)
         return handler
 
@@ -1169,6 +1218,9 @@ def execute(ctx, plan):     # noqa: C901  (one scenario, kept in one place on pu
         now = loop.time()
         if w[0] == "rel":
             t = now + w[1]
+        elif w[0] == "sync":
+            period = op["sync_ms"] / 1000.0
+            t = (int(now / period) + 1 + w[1]) * period
         else:
             dls = [d for d in live_deadlines() if d >= now]
             if dls:
